@@ -52,7 +52,7 @@ pub fn target_dir() -> String {
         format!("{root}/.build")
     });
     let repo = repo_dir();
-    if repo == "/repo" { format!("{build}/repo-target") } else { format!("{build}/alt-target-{:08x}", fnv(repo.as_bytes()) as u32) }
+    crate::cli::repo_target(&build, &repo)
 }
 pub fn lib_path() -> String {
     format!("{}/debug/libmla.so", target_dir())
